@@ -18,6 +18,11 @@ CHECKS = {
             'For each catalogue program of the agg family, z3 proves the emitted SQL returns the reference multiset (distinct keys once, aggregates over all bodies, combines per outer binding, nulls ignored, null on no solution, negation = no solution) on every database with <=K rows per table incl. NULLs in aggregated columns, empty groups and ties.',
             'Trusted: lv/sqlsem.py, lv/refsem.py, z3. Count of nothing = 0; ArgMin/ArgMax under no-tie assumption; List compared as multiset. Known finding KF-C02-list-of-nothing (List{} of nothing is [] on SQLite) is reported as KNOWN-FINDING and the predicate re-decided with that deviation accepted.',
             'DESIGN.md §2.1, §3 C02', 'sqlsmt'),
+    'C03': ('translation_validation',
+            'bounded symbolic evaluation (z3, domain compaction) of the unfolded recursion SQL, and of the iterative plan executed by the real concertina_lib with a symbolic sql_runner, vs depth+1 reference applications of the rules from empty relations; sat models replayed on real SQLite',
+            'For each catalogue recursive program and every graph with <=K edges z3 proves result == T^(depth+1)(empty) (self recursion, flat and iterative unfolding, depths 1,2,3,8,21,22,24) or, for vertical unfolding of a cut cycle, T^(depth+1)(empty) <= result <= lfp.',
+            'Trusted: lv/sqlsem.py, lv/refsem.py, z3. Upper containment bound checked against T^(cycle*(depth+1)) and confirmed against a concretely computed least fixpoint on replay. Outside: diamond mode, stop signals inside compiled recursion, depth infinity.',
+            'DESIGN.md §2.1, §3 C03', 'sqlsmt'),
 }
 
 NOT_APPLICABLE = {
